@@ -29,6 +29,23 @@ BUILT = {
          "compiled vs brute force / quadrature",
          "Theorem for every smooth decomposable tree, variable list and linear functional; correspondence over all "
          "non-empty Z of generated circuits, exact over Rat for embeddings.", "DESIGN.md 4/C03"),
+ "C04": ("Lean 4 proof (mul_correct: whenever the model of multiply returns, the result is the pointwise product in "
+         "Kronecker unit order — every rule, sum arity, unit count, input order; units/WF; circuit-level output layout) "
+         "+ correspondence: Lean eval of real multiply() vs product of Lean evals, model operator vs real operator, "
+         "compiled product vs product of compiled operands",
+         "Full theorem (no partial cases) by induction over a relational presentation of the model of multiply; "
+         "correspondence on vtree-skeleton pairs/chains/squares/evidence-conditioned operands, exact over Rat for "
+         "embedding and polynomial inputs.", "DESIGN.md 4/C04"),
+ "C08": ("Lean 4 proof (smooth/decomposable iff definitions, structured-decomposability and compatibility soundness, "
+         "symmetry, invariance of the factor lists under permutation of layer inputs) + correspondence: real predicates "
+         "vs Lean model vs brute-force definitions + metamorphic permutation/renaming checks on the real code",
+         "Theorems about the model predicates for every layer DAG; discrete, exact correspondence incl. malformed "
+         "circuits and pairs.", "DESIGN.md 4/C08"),
+ "C09": ("Lean 4 proof (decision logic of every operator's argument checks stated outright; integrate/evidence/"
+         "conjugate/multiply preserve well-formedness, smoothness, decomposability, scope, units) + correspondence: "
+         "error class of the real operators vs model prechecks, structure of every returned circuit recomputed by Lean",
+         "Theorems for all circuits/arguments; correspondence over a well-formed and a malformed stream.",
+         "DESIGN.md 4/C09"),
  "C06": ("Lean 4 proof (evidence_correct for every tree and observation, scope, concatenate) + correspondence: Lean "
          "eval of real evidence()/concatenate() vs Lean eval of operands; compiled vs compiled-on-overwritten-input",
          "Theorems need no structural hypothesis; correspondence on generated circuits with heterogeneous inputs "
